@@ -165,7 +165,52 @@ def r3_monitor(ctx):
            "interval - rtt old, so a healthy peer is declared dead whenever timeout < interval - rtt; nothing relates the two values (`-I 30 -T 10` is accepted and closes every healthy session after 30 s)")
 
 
+def r5_every_tick_probes(ctx):
+    """no tick is skipped: every turn of the monitor loop evaluates the give-up test and, unless it gives up, sends a request
+    (a tick that neither checks nor probes lets the reference instant go stale while the peer is perfectly alive)"""
+    hb = _heartbeat_task(ctx)
+    if hb is None:
+        return
+    cfg, conds, o = ctx.cfg(hb), ctx.conds(hb), ctx.origins(hb)
+    ticks = [c for c in hb.calls() if (c.norm or "").endswith("Interval::tick")]
+    ws = [c for c in calls_norm(hb, "Session::write_control_frame", "Session::write_frame") if any(isinstance(s, tuple) and s[0] == "agg" and s[2] == "HeartRequest" for s in subterms(o.of_operand(c.args[1])))]
+    gt = [c for c in conds.all() if c.kind == "bool" and is_call_term(c.term, "PartialOrd::lt", "PartialOrd>::lt", "PartialOrd::le") and any("timeout" in (s[1] if isinstance(s, tuple) and s[0] == "var" else "") for s in subterms(c.term))]
+    if not ticks or not ws or not gt:
+        ctx.missing("R14.5", "tick / HeartRequest write / give-up test in the monitor loop")
+        return
+    ok1, p1 = cfg.must_pass(cfg.succ(ticks[0].bb), [ticks[0].bb], via_blocks=[w.bb for w in ws])
+    ctx.ob("R14.5", "monitor:every-surviving-tick-sends-a-request", ok1, ws[0].site, "no path returns to the next tick without having written a HeartRequest" if ok1 else
+           "a tick can go back to waiting without sending a HeartRequest (a `continue` ahead of the probe): while that condition lasts no response can refresh the reference instant, and the first tick that does check "
+           "declares a peer dead that answered every request it was sent", path=None if ok1 else render_path(hb, p1))
+    ok2, p2 = cfg.must_pass(cfg.succ(ticks[0].bb), [ticks[0].bb] + hb.return_blocks(), via_blocks=[gt[0].block] + [c.block for c in conds.all() if c.kind == "bool" and is_call_term(c.term, S + "is_closed")])
+    ctx.ob("R14.5", "monitor:every-tick-evaluates-the-give-up-test", ok2, "", "every tick evaluates `elapsed > timeout` (or finds the session closed)" if ok2 else "a tick can skip the give-up test", path=None if ok2 else render_path(hb, p2))
+    # the response arm refreshes the instant unconditionally (whenever a monitor exists)
+    body = co(ctx, "R14.5", S + "handle_frame")
+    if body is None:
+        return
+    cfgh, condsh, oh = ctx.cfg(body), ctx.conds(body), ctx.origins(body)
+    sw, arms = C02.arm_regions(ctx, body)
+    if not arms or "HeartResponse" not in arms:
+        return
+    s_, own, allr = arms["HeartResponse"]
+    stores = [bi for bi, line, base, v, place in stores_through(body, oh) if bi in own and is_call_term(v, "Instant::now")]
+    some = []
+    for c in condsh.all():
+        if c.block in own | {s_} and c.kind == "variant" and var_name(c.term) == "self.heartbeat":
+            some += c.succs_for("Some")
+    exits = [b for b in allr if b not in own and any(p in own for p in cfgh.preds(b))] or body.return_blocks()
+    if stores and some:
+        ok3, p3 = cfgh.must_pass(some, exits, via_blocks=stores)
+        ctx.ob("R14.5", "HeartResponse-arm:every-response-refreshes-the-instant", ok3, "", "with a monitor configured, every HeartResponse stores Instant::now()" if ok3 else
+               "a HeartResponse can be dropped without refreshing the reference instant (the store is conditional): answers that arrive after the next request has gone out (round trip > interval, still < timeout) are "
+               "discarded and a peer that answered in time is declared dead", path=None if ok3 else render_path(body, p3))
+    else:
+        ctx.missing("R14.5", "store of Instant::now() / `self.heartbeat` test in the HeartResponse arm")
+
+
 def run(ctx):
+    r5_every_tick_probes(ctx)
+    C09.r4_close_body(ctx)    # giving up releases all waiters: close() drains streams before it waits for the transport
     r1_writers(ctx)
     r2_request_answered(ctx)
     r3_monitor(ctx)
